@@ -231,6 +231,13 @@ def rule_tables(ctx):
             for (v, c, col) in rows:
                 ctx.ok("%s:row:%s%s*%s" % (key, "+" if sign > 0 else "-", c, v), "%s %d x count(%s(%s))" % ("+" if sign > 0 else "-", c, v, expr_str(col)), b.where(db))
         ctx.floor("material rows of %s" % C.short(key), len(plus) + len(minus), 10)
+        # the sums stay inside the score type: the symmetry argument is about integers, the code computes in i16 (saturating on
+        # one side only would break "negation"); with at most 16 men a side, 15 of them of the most valuable kind
+        coeffs = [c for (_v, c) in plus if isinstance(c, int)]
+        worst = 15 * max(coeffs) if coeffs else None
+        ctx.check(worst is not None and worst <= 32767, "%s:material-fits-the-score-type" % key,
+                  "15 men of the most valuable kind (%s) stay below i16::MAX: %s <= 32767" % (max(coeffs) if coeffs else None, worst), b.where(0),
+                  bad_what="with the piece values %s one side's material can reach %s > 32767 (i16::MAX) with 15 men: the mover's sum clips while the opponent's view subtracts in full, so eval(p) != -eval(p with the other side to move)" % (sorted(set(coeffs)), worst))
 
 
 def rule_sides(ctx):
@@ -336,6 +343,6 @@ def run(tier):
                      "and subtracted terms count current_turn.opposite()'s; Color::opposite is an involution; the accumulator starts at 0 and nothing else touches it or reads the board; "
                      "get_piece_count maps (kind, colour) to the bitboard that add_piece/remove_piece maintain for that pair. Then eval(p) = sum_K v_K (n(K, mover) - n(K, opponent)), which is invariant under "
                      "rank flip + colour swap + side swap and negated by a side swap alone."),
-        assumptions=["no saturation/overflow of the i16 sum (legal material <= 10300 < 32767)", "count_ones is the population count", "the piece bitboards hold what add_piece/remove_piece put there (C02/C07)"],
+        assumptions=["no saturation/overflow of the i16 sum beyond what `material-fits-the-score-type` decides (at most 16 men a side)", "count_ones is the population count", "the piece bitboards hold what add_piece/remove_piece put there (C02/C07)"],
         trusted_base=["rustc nightly MIR construction", "/verif/engine/mirfacts driver", "/verif/rules symbolic slices (mir.Sym) and decision-table extraction"],
         tier=tier)
